@@ -547,3 +547,267 @@ theorem hopsWorld_deaf (hops : List Hop) : ∀ (P : Nat) (f : Packet), f.lan ∉
     · exact ih h.lan f hl.2 (fun e => absurd e hl.1) s hs'
 
 end BacVerif.C06
+
+namespace BacVerif.C06
+open BacVerif BacVerif.Route
+
+/-- MAC / adapter-id conditions along a line, seen from a sender `u` on the first network -/
+def lineOk (u : Mac) (S : List Station) : List Hop → Prop
+  | [] => ∀ s ∈ S, s.mac ≠ u
+  | h :: hs => (∀ s ∈ S, s.mac ≠ u ∧ s.mac ≠ h.upMac) ∧ h.upMac ≠ u ∧ h.ok ∧ lineOk h.downMac h.stations hs
+
+theorem runWorld_step (n : Nat) (w : World) (f : Packet) (w' : World) (q' : List Packet)
+    (h : stepWorld w f = (w', q', [])) : runWorld (n + 1) w [f] [] = runWorld n w' q' [] := by
+  simp [runWorld, h]
+
+theorem warmHops_head (d : Nat) (P : Nat) (u : Mac) (sIn : Option (Nat × Mac)) (h : Hop) (hs : List Hop) :
+    ∃ h' tl, warmHops d P u sIn (h :: hs) = h' :: tl ∧ h'.upMac = h.upMac ∧ h'.lan = h.lan := by
+  unfold warmHops
+  split
+  · exact ⟨_, _, rfl, rfl, rfl⟩
+  · cases hs with
+    | nil => exact ⟨_, _, rfl, rfl, rfl⟩
+    | cons h2 hs2 => exact ⟨_, _, rfl, rfl, rfl⟩
+
+theorem quietOn_split {pre post : World} {lans : List Nat} {P : Nat} {u : Mac}
+    (h : quietOn (pre ++ post) lans P u) : quietOn pre lans P u ∧ quietOn post lans P u :=
+  ⟨fun s hs => h s (List.mem_append_left _ hs), fun s hs => h s (List.mem_append_right _ hs)⟩
+
+/-- the first step of the wave: the Who-Is-Router broadcast on `P` is heard by the stations of `P`
+    and by the first router -/
+theorem wave_first (d : Nat) (hd : d < 65536) (h : Hop) (hs : List Hop) (P : Nat) (u : Mac)
+    (sIn : Option (Nat × Mac)) (S : List Station) (pre post : World)
+    (hnd : (P :: (h :: hs).map (·.lan)).Nodup) (hcold : h.cache = [])
+    (hsin : ∀ s0, sIn = some s0 → s0.1 ∉ P :: (h :: hs).map (·.lan)) (hdin : d ∈ (h :: hs).map (·.lan))
+    (hok : lineOk u S (h :: hs))
+    (hq : quietOn (pre ++ post) (P :: (h :: hs).map (·.lan)) P u) :
+    stepWorld (pre ++ unitWorld P S (h :: hs) ++ post) ⟨P, u, .bcast, whoIsP sIn d⟩ =
+      (pre ++ unitWorld P (S.map (Station.learn P u sIn))
+          ({ h with cache := learnC h.cache (some P) u sIn } :: hs) ++ post,
+       [if d = h.lan then ⟨P, h.upMac, .to u, iAmP d⟩
+        else ⟨h.lan, h.downMac, .bcast, whoIsP (some (sIn.getD (P, u))) d⟩], []) := by
+  obtain ⟨hq1, hq2⟩ := quietOn_split hq
+  simp only [List.map_cons, List.nodup_cons, List.mem_cons, not_or] at hnd
+  obtain ⟨⟨hPh, hPhs⟩, hhhs, _⟩ := hnd
+  obtain ⟨hS, hum, hhok, _⟩ := hok
+  have hfl : (⟨P, u, .bcast, whoIsP sIn d⟩ : Packet).lan ∈ P :: (h :: hs).map (·.lan) := by simp
+  have hpre := stepWorld_deaf pre _ (quiet_deaf pre _ P u hq1 ⟨P, u, .bcast, whoIsP sIn d⟩ hfl
+    (fun _ => Or.inl ⟨rfl, rfl⟩))
+  have hpost := stepWorld_deaf post _ (quiet_deaf post _ P u hq2 ⟨P, u, .bcast, whoIsP sIn d⟩ hfl
+    (fun _ => Or.inl ⟨rfl, rfl⟩))
+  have hsP : ∀ s0, sIn = some s0 → s0.1 ≠ P := fun s0 e hh => hsin s0 e (by simp [hh])
+  have hst := stations_whoIs P S u sIn d hd hsP (fun s hs' => (hS s hs').1)
+  have hdP : d ≠ P := by
+    intro e
+    simp only [List.map_cons, List.mem_cons] at hdin
+    rcases hdin with e2 | e2
+    · exact hPh (e ▸ e2)
+    · exact hPhs (e ▸ e2)
+  have hrest : stepWorld ((h.stations.map (stationSt h.lan [])) ++ hopsWorld h.lan hs)
+      ⟨P, u, .bcast, whoIsP sIn d⟩ = ((h.stations.map (stationSt h.lan [])) ++ hopsWorld h.lan hs, [], []) := by
+    apply stepWorld_deaf
+    intro s hs'
+    rcases List.mem_append.mp hs' with hs' | hs'
+    · exact stations_deaf h.lan h.stations _ (Or.inl hPh) s hs'
+    · exact hopsWorld_deaf hs h.lan _ hPhs (fun e => absurd e hPh) s hs'
+  have hrt : stepNode (routerSt P h) ⟨P, u, .bcast, whoIsP sIn d⟩ =
+      (routerSt P { h with cache := learnC h.cache (some P) u sIn },
+       [if d = h.lan then ⟨P, h.upMac, .to u, iAmP d⟩
+        else ⟨h.lan, h.downMac, .bcast, whoIsP (some (sIn.getD (P, u))) d⟩], []) := by
+    by_cases hdl : d = h.lan
+    · subst hdl
+      simp only [if_true]
+      exact routerSt_whoIs_answer P h u sIn hd hhok hum (Ne.symm hPh)
+        (fun s0 e => ⟨hsP s0 e, fun hh => hsin s0 e (by simp [hh])⟩)
+    · simp only [hdl, if_false]
+      exact routerSt_whoIs_relay P h u sIn d hd hhok hum (Ne.symm hPh)
+        (fun s0 e => ⟨hsP s0 e, fun hh => hsin s0 e (by simp [hh]), fun hh => hsin s0 e (by
+          simp only [List.map_cons, List.mem_cons] at hdin ⊢
+          right; exact hh ▸ hdin)⟩) hdP hdl hcold
+  simp only [unitWorld, hopsWorld]
+  rw [stepWorld_append, stepWorld_append, hpre, hpost, stepWorld_append, hst, stepWorld_cons, hrt, hrest]
+  simp
+
+/-- the last step of the wave at one router: the I-Am-Router coming back on the network behind it
+    (`lk` = unicast to its down port, or a broadcast) is learned and announced on `P` -/
+theorem wave_last (d : Nat) (hd : d < 65536) (h : Hop) (P : Nat) (Sp S2 : List Station) (hops' : List Hop)
+    (m2 : Mac) (lk : Link) (pre post : World)
+    (hPl : h.lan ≠ P) (hhok : h.ok)
+    (hlk : lk = .to h.downMac ∨ lk = .bcast) (hm2 : h.downMac ≠ m2)
+    (hS2 : ∀ s ∈ S2, s.mac ≠ h.downMac ∧ s.mac ≠ m2)
+    (hhead : ∀ x ∈ hops'.head?, x.upMac = m2) (hl : h.lan ∉ hops'.map (·.lan))
+    (hctx : ∀ s ∈ pre ++ post, deaf ⟨h.lan, m2, lk, iAmP d⟩ s) :
+    stepWorld (pre ++ (Sp.map (stationSt P []) ++ (routerSt P h :: (S2.map (stationSt h.lan []) ++ hopsWorld h.lan hops'))) ++ post)
+        ⟨h.lan, m2, lk, iAmP d⟩ =
+      (pre ++ (Sp.map (stationSt P []) ++
+          (routerSt P { h with cache := h.cache.update (some h.lan) m2 [d] } ::
+            ((S2.map (fun s => if lk = .bcast then s.learnD h.lan m2 d else s)).map (stationSt h.lan []) ++
+              hopsWorld h.lan hops'))) ++ post,
+       [⟨P, h.upMac, .bcast, iAmP d⟩], []) := by
+  have hpre := stepWorld_deaf pre _ (fun s hs => hctx s (List.mem_append_left _ hs))
+  have hpost := stepWorld_deaf post _ (fun s hs => hctx s (List.mem_append_right _ hs))
+  have hSp := stepWorld_deaf (Sp.map (stationSt P [])) ⟨h.lan, m2, lk, iAmP d⟩
+    (stations_deaf P Sp _ (Or.inl hPl))
+  have hrt := routerSt_iAm P h m2 lk d hd hhok hPl (by
+    rcases hlk with e | e
+    · exact Or.inl e
+    · exact Or.inr ⟨e, hm2⟩)
+  have hdeep := stepWorld_deaf (hopsWorld h.lan hops') ⟨h.lan, m2, lk, iAmP d⟩
+    (hopsWorld_deaf hops' h.lan _ hl (fun _ x hx => by
+      rcases hlk with e | e
+      · exact Or.inr ⟨h.downMac, e, by rw [hhead x hx]; exact hm2⟩
+      · exact Or.inl ⟨e, (hhead x hx).symm⟩))
+  have hS : stepWorld (S2.map (stationSt h.lan [])) ⟨h.lan, m2, lk, iAmP d⟩ =
+      ((S2.map (fun s => if lk = .bcast then s.learnD h.lan m2 d else s)).map (stationSt h.lan []), [], []) := by
+    rcases hlk with e | e
+    · subst e
+      simp only [reduceCtorEq, if_false, List.map_id']
+      exact stepWorld_deaf _ _ (stations_deaf h.lan S2 _ (Or.inr ⟨h.downMac, rfl, fun s hs => (hS2 s hs).1⟩))
+    · subst e
+      simp only [if_true]
+      exact stations_iAm h.lan S2 m2 d hd (fun s hs => (hS2 s hs).2)
+  rw [stepWorld_append, stepWorld_append, hpre, hpost, stepWorld_append, hSp, stepWorld_cons, hrt,
+    stepWorld_append, hS, hdeep]
+  simp
+
+/-- **the discovery wave**: a Who-Is-Router for `d` broadcast on network `P` travels up the cold
+    line to the router connected to `d`; the I-Am-Router answer travels back; when the exchange
+    has settled the only frame in flight is the I-Am-Router on `P` and the line is `warmHops` -/
+theorem wave (d : Nat) (hd : d < 65536) (hs : List Hop) :
+    ∀ (h : Hop) (P : Nat) (u : Mac) (sIn : Option (Nat × Mac)) (S : List Station) (pre post : World),
+    d ∈ (h :: hs).map (·.lan) → (P :: (h :: hs).map (·.lan)).Nodup → (∀ x ∈ h :: hs, x.cache = []) →
+    (∀ s0, sIn = some s0 → s0.1 ∉ P :: (h :: hs).map (·.lan)) → lineOk u S (h :: hs) →
+    quietOn (pre ++ post) (P :: (h :: hs).map (·.lan)) P u →
+    ∃ n, runWorld n (pre ++ unitWorld P S (h :: hs) ++ post) [⟨P, u, .bcast, whoIsP sIn d⟩] [] =
+      (pre ++ unitWorld P (S.map (Station.learn P u sIn)) (warmHops d P u sIn (h :: hs)) ++ post,
+       [⟨P, h.upMac, if d = h.lan then .to u else .bcast, iAmP d⟩], []) := by
+  induction hs with
+  | nil =>
+    intro h P u sIn S pre post hd' hnd hcold hsin hok hq
+    have hdl : d = h.lan := by simpa using hd'
+    refine ⟨1, ?_⟩
+    rw [runWorld_one, wave_first d hd h [] P u sIn S pre post hnd (hcold h (by simp)) hsin hd' hok hq]
+    simp [hdl, warmHops]
+  | cons h2 hs2 ih =>
+    intro h P u sIn S pre post hd' hnd hcold hsin hok hq
+    have hfirst := wave_first d hd h (h2 :: hs2) P u sIn S pre post hnd (hcold h (by simp)) hsin hd' hok hq
+    by_cases hdl : d = h.lan
+    · refine ⟨1, ?_⟩
+      rw [runWorld_one, hfirst]
+      simp [hdl, warmHops]
+    · simp only [hdl, if_false] at hfirst
+      have hndx := hnd
+      simp only [List.map_cons, List.nodup_cons, List.mem_cons, not_or] at hndx
+      obtain ⟨⟨hPh, hPh2, hPhs⟩, ⟨hhh2, hhhs⟩, hnd2⟩ := hndx
+      obtain ⟨hS, hum, hhok, hok2⟩ := hok
+      have hok2x := hok2
+      obtain ⟨hS2, hum2, _, _⟩ := hok2x
+      have hdin2 : d ∈ (h2 :: hs2).map (·.lan) := by
+        simp only [List.map_cons, List.mem_cons] at hd' ⊢
+        exact hd'.resolve_left hdl
+      have hs1 : ∀ s0, some (sIn.getD (P, u)) = some s0 → s0.1 ∉ h.lan :: (h2 :: hs2).map (·.lan) := by
+        intro s0 e
+        simp only [Option.some.injEq] at e
+        subst e
+        cases sIn with
+        | none =>
+          simp only [Option.getD_none, List.map_cons, List.mem_cons, not_or]
+          exact ⟨hPh, hPh2, hPhs⟩
+        | some s0 =>
+          have := hsin s0 rfl
+          simp only [List.map_cons, List.mem_cons, not_or] at this
+          simp only [Option.getD_some, List.map_cons, List.mem_cons, not_or]
+          exact ⟨this.2.1, this.2.2.1, this.2.2.2⟩
+      have hq' : quietOn ((pre ++ (S.map (Station.learn P u sIn)).map (stationSt P []) ++
+            [routerSt P { h with cache := learnC h.cache (some P) u sIn }]) ++ post)
+          (h.lan :: (h2 :: hs2).map (·.lan)) h.lan h.downMac := by
+        intro s hsx a ha hal
+        have hne : a.lan ≠ P := by
+          intro e
+          simp only [List.map_cons, List.mem_cons] at hal
+          rw [e] at hal
+          rcases hal with e2 | e2 | e2
+          · exact hPh e2
+          · exact hPh2 e2
+          · exact hPhs e2
+        simp only [List.mem_append, List.mem_singleton] at hsx
+        rcases hsx with ((hsx | hsx) | rfl) | hsx
+        · exact absurd (hq s (List.mem_append_left _ hsx) a ha (List.mem_cons_of_mem _ hal)).1 hne
+        · obtain ⟨st, _, rfl⟩ := List.mem_map.mp hsx
+          simp only [stationSt, Station.tnode, List.mem_singleton] at ha
+          subst ha
+          exact absurd rfl hne
+        · rw [routerSt_adapters] at ha
+          simp only [List.mem_cons, List.not_mem_nil, or_false] at ha
+          rcases ha with rfl | rfl
+          · exact absurd rfl hne
+          · exact ⟨rfl, rfl⟩
+        · exact absurd (hq s (List.mem_append_right _ hsx) a ha (List.mem_cons_of_mem _ hal)).1 hne
+      obtain ⟨n', hrun⟩ := ih h2 h.lan h.downMac (some (sIn.getD (P, u))) h.stations
+        (pre ++ (S.map (Station.learn P u sIn)).map (stationSt P []) ++
+            [routerSt P { h with cache := learnC h.cache (some P) u sIn }]) post hdin2
+        (by simp only [List.map_cons, List.nodup_cons, List.mem_cons, not_or]; exact ⟨⟨hhh2, hhhs⟩, hnd2⟩)
+        (fun x hx => hcold x (List.mem_cons_of_mem _ hx)) hs1 hok2 hq'
+      obtain ⟨h2', tl', hw, hup2, hlan2⟩ := warmHops_head d h.lan h.downMac (some (sIn.getD (P, u))) h2 hs2
+      have hlans2 : (warmHops d h.lan h.downMac (some (sIn.getD (P, u))) (h2 :: hs2)).map (·.lan) =
+          (h2 :: hs2).map (·.lan) := same_lans (warmHops_skel d _ _ _ _)
+      have hctx : ∀ s ∈ pre ++ post,
+          deaf ⟨h.lan, h2.upMac, if d = h2.lan then Link.to h.downMac else Link.bcast, iAmP d⟩ s := by
+        intro s hsx
+        apply List.filter_eq_nil_iff.mpr
+        intro a ha
+        simp only [hears, Bool.and_eq_true, beq_iff_eq, not_and]
+        intro hl
+        have := (hq s hsx a ha (by simp [hl])).1
+        exact absurd (hl ▸ this) (Ne.symm hPh)
+      have hlast := wave_last d hd { h with cache := learnC h.cache (some P) u sIn } P
+        (S.map (Station.learn P u sIn)) (h.stations.map (Station.learn h.lan h.downMac (some (sIn.getD (P, u)))))
+        (warmHops d h.lan h.downMac (some (sIn.getD (P, u))) (h2 :: hs2)) h2.upMac
+        (if d = h2.lan then Link.to h.downMac else Link.bcast) pre post (Ne.symm hPh) hhok
+        (by by_cases e : d = h2.lan <;> simp [e]) (Ne.symm hum2)
+        (by
+          intro s hsx
+          obtain ⟨s', hs', rfl⟩ := List.mem_map.mp hsx
+          exact hS2 s' hs')
+        (by rw [hw]; intro x hx; simp at hx; subst hx; exact hup2)
+        (by rw [hlans2]; simp only [List.map_cons, List.mem_cons, not_or]; exact ⟨hhh2, hhhs⟩)
+        hctx
+      refine ⟨1 + (n' + 1), ?_⟩
+      rw [runWorld_add 1 (n' + 1), runWorld_one, hfirst]
+      simp only []
+      rw [runWorld_add n' 1]
+      have hshape : pre ++ unitWorld P (S.map (Station.learn P u sIn))
+            ({ h with cache := learnC h.cache (some P) u sIn } :: h2 :: hs2) ++ post =
+          (pre ++ (S.map (Station.learn P u sIn)).map (stationSt P []) ++
+            [routerSt P { h with cache := learnC h.cache (some P) u sIn }]) ++
+            unitWorld h.lan h.stations (h2 :: hs2) ++ post := by
+        simp [unitWorld, hopsWorld, List.append_assoc]
+      rw [hshape, hrun]
+      simp only [runWorld_one]
+      have hshape2 : (pre ++ (S.map (Station.learn P u sIn)).map (stationSt P []) ++
+            [routerSt P { h with cache := learnC h.cache (some P) u sIn }]) ++
+            unitWorld h.lan (h.stations.map (Station.learn h.lan h.downMac (some (sIn.getD (P, u)))))
+              (warmHops d h.lan h.downMac (some (sIn.getD (P, u))) (h2 :: hs2)) ++ post =
+          pre ++ ((S.map (Station.learn P u sIn)).map (stationSt P []) ++
+            (routerSt P { h with cache := learnC h.cache (some P) u sIn } ::
+              ((h.stations.map (Station.learn h.lan h.downMac (some (sIn.getD (P, u))))).map (stationSt h.lan []) ++
+                hopsWorld h.lan (warmHops d h.lan h.downMac (some (sIn.getD (P, u))) (h2 :: hs2))))) ++ post := by
+        simp [unitWorld, List.append_assoc]
+      rw [hshape2, hlast]
+      have hwarm : warmHops d P u sIn (h :: h2 :: hs2) =
+          { h with cache := (learnC h.cache (some P) u sIn).update (some h.lan) h2.upMac [d],
+                   stations := (h.stations.map (Station.learn h.lan h.downMac (some (sIn.getD (P, u))))).map
+                      (fun s => if d = h2.lan then s else s.learnD h.lan h2.upMac d) }
+            :: warmHops d h.lan h.downMac (some (sIn.getD (P, u))) (h2 :: hs2) := by
+        rw [warmHops]
+        simp [hdl]
+      rw [hwarm]
+      have hf : (fun s => if (if d = h2.lan then Link.to h.downMac else Link.bcast) = Link.bcast
+            then Station.learnD h.lan h2.upMac d s else s) =
+          (fun s => if d = h2.lan then s else Station.learnD h.lan h2.upMac d s) := by
+        funext s
+        by_cases e : d = h2.lan <;> simp [e]
+      rw [hf]
+      simp [unitWorld, hopsWorld, hdl, routerSt, List.append_assoc]
+
+end BacVerif.C06
